@@ -349,9 +349,17 @@ class CFG:
             for (y, k) in self.succ[x]:
                 if edge_ok is not None and not edge_ok(k):
                     continue
+                ny = self.nodes[y]
+                if y == start and goal_pred(ny) and not (avoid_pred is not None and avoid_pred(ny)):
+                    # a cycle back to the start node counts as reaching the goal
+                    path = [ny]
+                    c = x
+                    while c is not None:
+                        path.append(self.nodes[c])
+                        c = prev[c]
+                    return list(reversed(path))
                 if y in prev:
                     continue
-                ny = self.nodes[y]
                 if avoid_pred is not None and avoid_pred(ny):
                     continue
                 prev[y] = x
